@@ -745,7 +745,16 @@ async fn hostile_inner(hseed: u64, r: &mut Rng, inst: &ServerInstance, rep: &mut
             let (label, bytes): (&str, Vec<u8>) = match r.below(7) {
                 0 => {
                     let l = r.range(1, 64) as usize;
-                    ("random-bytes", r.bytes(l))
+                    let mut b = r.bytes(l);
+                    if b.len() >= 4 {
+                        // announced frame lengths stay below 16 MiB: the server allocates what the prefix announces before it reads
+                        // (a resource question outside this property), and gigabyte allocations in 16 shards starve the machine
+                        b[3] = 0;
+                        if r.chance(1, 2) {
+                            b[2] = 0;
+                        }
+                    }
+                    ("random-bytes", b)
                 }
                 1 => {
                     // length prefix shorter than the payload that follows
@@ -834,7 +843,16 @@ async fn hostile_inner(hseed: u64, r: &mut Rng, inst: &ServerInstance, rep: &mut
                 let pl = Bytes::from(format!("{:x}/healthy/{}|payload", hseed & 0xffff_ffff, healthy_sent.len()));
                 let mut m = vec![Message::new(Some(((hseed as u128) << 64) | (healthy_sent.len() as u128 + 10)), pl.clone(), None)];
                 rep.eval("C13:other-connections-untouched");
-                if let Err(e) = timed("send", good.send_messages(&one, &one, &Partitioning::partition_id(1), &mut m)).await? {
+                let sent_res = match timed("send", good.send_messages(&one, &one, &Partitioning::partition_id(1), &mut m)).await {
+                    Ok(x) => x,
+                    Err(st) => {
+                        if std::env::var("VERIF_TRACE").is_ok() {
+                            eprintln!("STALL healthy send; hseed {hseed}; last ops: {:#?}; panics {:?}", ops.iter().rev().take(6).collect::<Vec<_>>(), take_server_panics());
+                        }
+                        return Err(st);
+                    }
+                };
+                if let Err(e) = sent_res {
                     return Err(sv(hseed, &ops, "other-connections-untouched", "healthy-send-failed", json!({"error": e.to_string()})));
                 }
                 healthy_sent.push(pl);
